@@ -157,13 +157,13 @@ class SystemOfEquations(Module):
 
         # solve
         self.module_LinSolve.sig_in[0].state = Aff
-        self.module_LinSolve.sig_in[1].state = bf - self.Afp * xp
+        self.module_LinSolve.sig_in[1].state = bf - self.Afp @ xp
         self.module_LinSolve.response()
         xf = self.module_LinSolve.sig_out[0].state
 
         # set output
         self.x[self.f, ...] = xf
-        b[self.p, ...] = self.Apf * xf + self.App * xp
+        b[self.p, ...] = self.Apf @ xf + self.App @ xp
 
         return self.x, b
 
@@ -173,7 +173,7 @@ class SystemOfEquations(Module):
         if dgdx is not None:
             adjoint_load += dgdx[self.f, ...]
         if dgdb is not None:
-            adjoint_load += self.Apf.T * dgdb[self.p, ...]
+            adjoint_load += self.Apf.T @ dgdb[self.p, ...]
 
         lam = np.zeros_like(self.x)
         lamf = -1.0 * self.module_LinSolve.solver.solve(adjoint_load, trans='T')
@@ -192,14 +192,14 @@ class SystemOfEquations(Module):
         dgdbf = np.zeros_like(adjoint_load)
         dgdup = np.zeros_like(self.x[self.p, ...])
         dgdbf -= lam[self.f, ...]
-        dgdup += self.Afp.T * lam[self.f, ...]
+        dgdup += self.Afp.T @ lam[self.f, ...]
 
         if dgdx is not None:
             dgdup += dgdx[self.p, ...]
 
         if dgdb is not None:
             dgdbf += dgdb[self.f, ...]
-            dgdup += self.App.T * dgdb[self.p, ...]
+            dgdup += self.App.T @ dgdb[self.p, ...]
 
         return dgdA, dgdbf, dgdup
 
